@@ -133,6 +133,12 @@ func gen(t *rapid.T) pairsim.Scenario {
 				op.CancelMs = rapid.SampledFrom([]int{1, 3, 50}).Draw(t, "cancel")
 			case 3:
 				op.Mode = "sep"
+			case 4:
+				// the request carries No-Response (RFC 7967): the response, block-wise or not, may be
+				// withheld on the responder's side after the handler produced it
+				if op.Kind != "observe" {
+					op.NoResp = rapid.SampledFrom([]int{2, 8, 16, 26, 24, 10}).Draw(t, "noresp")
+				}
 			}
 		}
 		sc.Ops = append(sc.Ops, op)
